@@ -89,13 +89,16 @@ Definition ores_eqb (a b : option (N * chain)) : bool :=
 
 Inductive case :=
 | CAnn (dev member gnonce ctr : N) (ck : chain) (altered : bool)
-       (open_gnonce open_member open_sender : N) (obs : option (N * chain)).
+       (open_gnonce open_member open_sender : N) (obs : option (N * chain))
+| CDist (log : list entry) (pairs : list (N * N * bool)).   (* converged metadata log; (device, sender device, key registered) *)
 
 Definition check_case (c : case) : bool :=
   match c with
   | CAnn dev member gn ctr ck altered ogn om os obs =>
     let b := if altered then CJunk else encrypt_ck dev member gn ctr ck in
     ores_eqb (decrypt_ck b ogn om os) obs
+  | CDist log pairs =>
+    quiescent log && forallb (fun p => let '(d, s, k) := p in Bool.eqb (knows log d s) k) pairs
   end.
 
 Fixpoint mismatches_from (i : N) (cs : list case) : list N :=
